@@ -422,10 +422,17 @@ def _face_edges(run, P):
     call = [n for n in ast.walk(g.node) if isinstance(n, ast.Call) and (dotted(n.func) or [""])[-1] == "_build_face_edge_connectivity"]
     c = f"{g.key}:call(_build_face_edge_connectivity)"
     if call:
-        a = call[0].args
-        ok = len(a) == 3 and "inverse_indices" in norm(a[0]) and norm(a[1]).endswith("n_face") and norm(a[2]).endswith("n_max_face_nodes")
+        # arguments by the builder's parameter order, positional or by keyword; locals looked through
+        from ..astutil import Resolver
+        RZg = Resolver(g.node)
+        bound = dict(zip(params, call[0].args))
+        bound.update({k.arg: k.value for k in call[0].keywords if k.arg})
+        a = [bound.get(p_) for p_ in params[:3]]
+        ok = all(x is not None for x in a) and "inverse_indices" in RZg.norm(a[0]) and RZg.norm(a[1]).endswith("n_face") and RZg.norm(a[2]).endswith("n_max_face_nodes")
         if ok:
             run.holds("IDX/face-edge-shape", c, where(g, call[0]), "called with (inverse_indices, n_face, n_max_face_nodes)")
+        elif any(x is None for x in a):
+            run.incomplete("IDX/face-edge-shape", c, where(g, call[0]), f"not every parameter of {params[:3]} is bound at the call")
         else:
             run.violation("IDX/face-edge-shape", c, where(g, call[0]), f"called with {[norm(x) for x in a]}")
     else:
@@ -444,12 +451,30 @@ def _face_edges(run, P):
     if tu:
         names = [e.id for e in tu[0].targets[0].elts if isinstance(e, ast.Name)]
         store = [st for st in iter_stmts(g.node.body) if isinstance(st, ast.Assign) and isinstance(st.targets[0], ast.Subscript) and str_const(st.targets[0].slice) == "edge_node_connectivity"]
-        inv_store = [st for st in iter_stmts(g.node.body) if isinstance(st, ast.Assign) and isinstance(st.targets[0], ast.Subscript) and str_const(st.targets[0].slice) == "inverse_indices"]
-        ok = len(names) == 3 and store and isinstance(store[0].value, ast.Call) and store[0].value.args and norm(store[0].value.args[0]) == names[0] and inv_store and norm(inv_store[0].value) == names[1]
-        if ok:
-            run.holds("IDX/pairing", c, where(g, tu[0]), "first result stored as edge_node_connectivity, second as its inverse_indices")
+        data = inv = None
+        if store and isinstance(store[0].value, ast.Call):
+            v = store[0].value
+            data = next((k.value for k in v.keywords if k.arg == "data"), v.args[0] if v.args else None)
+            attrs = next((k.value for k in v.keywords if k.arg == "attrs"), None)
+            # the side table: a key of a literal attrs dict, or an item store into the attrs dict built beforehand
+            if isinstance(attrs, ast.Dict):
+                inv = next((vv for kk, vv in zip(attrs.keys, attrs.values) if kk is not None and str_const(kk) == "inverse_indices"), None)
+            elif isinstance(attrs, ast.Name):
+                inv_store = [st for st in iter_stmts(g.node.body) if isinstance(st, ast.Assign) and isinstance(st.targets[0], ast.Subscript) and str_const(st.targets[0].slice) == "inverse_indices"
+                             and norm(st.targets[0].value) == attrs.id]
+                inv = inv_store[0].value if inv_store else None
+                if inv is None:
+                    for st in iter_stmts(g.node.body):
+                        if isinstance(st, ast.Assign) and norm(st.targets[0]) == attrs.id and isinstance(st.value, ast.Dict):
+                            inv = next((vv for kk, vv in zip(st.value.keys, st.value.values) if kk is not None and str_const(kk) == "inverse_indices"), inv)
+        if len(names) == 3 and data is not None and inv is not None:
+            if norm(data) == names[0] and norm(inv) == names[1]:
+                run.holds("IDX/pairing", c, where(g, tu[0]), "first result stored as edge_node_connectivity, second as its inverse_indices")
+            else:
+                run.violation("IDX/pairing", c, where(g, tu[0]), f"results of the edge builder are not stored as (edge_node_connectivity, inverse_indices): data={norm(data)[:30]}, inverse_indices={norm(inv)[:30]} "
+                              f"for builder results {names}")
         else:
-            run.violation("IDX/pairing", c, where(g, tu[0]), "results of the edge builder are not stored as (edge_node_connectivity, inverse_indices)")
+            run.incomplete("IDX/pairing", c, where(g, tu[0]), "how the builder's results are stored (data / inverse_indices side table) is not recognised")
     else:
         run.incomplete("IDX/pairing", c, where(g), "unpack of the edge builder not found")
 
